@@ -267,6 +267,70 @@ def strip_macro_stmt(chunk, names, log, where):
     return n
 
 
+def apply_R12(chunk, log, where):
+    """R12: `RECV.rem(ARG)` -> `(RECV % ARG)`, `RECV.div(ARG)` -> `(RECV / ARG)` for primitive integers
+    (std::ops::Rem/Div method calls are the operators). RECV is the maximal postfix chain to the left."""
+    n = 0
+    while True:
+        t = chunk.text()
+        cls = rsscan.classify(t)
+        m = None
+        for mm in re.finditer(r'\.(rem|div)\(', t):
+            if cls[mm.start()] == rsscan.CODE:
+                m = mm
+                break
+        if m is None:
+            break
+        # argument: up to matching paren
+        depth = 0
+        j = m.end() - 1
+        while j < len(t):
+            if cls[j] == rsscan.CODE:
+                if t[j] == '(':
+                    depth += 1
+                elif t[j] == ')':
+                    depth -= 1
+                    if depth == 0:
+                        break
+            j += 1
+        arg = t[m.end():j]
+        # receiver: scan backwards over identifier chars, dots, and balanced () []
+        i = m.start()
+        k = i
+        while k > 0:
+            c = t[k - 1]
+            if c.isalnum() or c in '_.':
+                k -= 1
+            elif c in ')]':
+                close = c
+                opn = '(' if c == ')' else '['
+                d = 0
+                q = k - 1
+                while q >= 0:
+                    if t[q] == close:
+                        d += 1
+                    elif t[q] == opn:
+                        d -= 1
+                        if d == 0:
+                            break
+                    q -= 1
+                k = q
+            else:
+                break
+        recv = t[k:i]
+        if not recv.strip():
+            raise ExtractError('R12: no receiver for %s in %s' % (m.group(0), where))
+        op = '%' if m.group(1) == 'rem' else '/'
+        new = '(%s %s %s)' % (recv, op, arg)
+        old = t[k:j + 1]
+        chunk.replace_span(k, j + 1, new, 'R12')
+        log.add('R12', where, old, new)
+        n += 1
+        if n > 100:
+            raise ExtractError('R12 does not terminate in %s' % where)
+    return n
+
+
 def name_return(sig_text, ret):
     """`fn f(..) -> T` => `fn f(..) -> (ret: T)`; sig_text is from 'fn' up to (excluding) body '{'."""
     cls = rsscan.classify(sig_text)
@@ -359,6 +423,8 @@ def build_fn_chunk(chunk, fspec, fnkey, built, cover, relwhere):
             apply_R2(chunk, r[1], log, fnkey)
         elif kind == 'R6':
             strip_macro_stmt(chunk, r[1], log, fnkey)
+        elif kind == 'R12':
+            apply_R12(chunk, log, fnkey)
         elif kind == 'RX':
             # ('RX', rule_name, pattern, repl, count)
             apply_regex_rule(chunk, r[1], r[2], r[3], log, fnkey, count=r[4] if len(r) > 4 else None)
